@@ -67,7 +67,7 @@ def opsWarn (op : String) (j : Json) : Option (Except String Json) :=
       if !keys.all isAscii then pure (Json.mkObj [("outcome", "unsupported")]) else
       pure (Json.mkObj [("outcome", "ok"),
         ("model", match findSheetMisspellings lowerAscii supported key keys with | some c => jstrs c | none => Json.null),
-        ("spec", jstrs (keys.filter (Spec.isMisspelling lowerAscii supported key)))])
+        ("spec", jstrs (keys.filter (Spec.isMisspelling levenshtein lowerAscii supported key)))])
   | "warn.header" => some do
       let h ← getStr j "header"
       let (al, cols) := if getStrD j "sheet" "survey" = "survey".toList then (surveyAliases, surveyCols) else (listAliases, choicesCols)
@@ -94,7 +94,7 @@ def opsWarn (op : String) (j : Json) : Option (Except String Json) :=
       match workbookToJson lowerAscii wb [] with
       | .error e => pure (stopToJson e)
       | .ok (res, ws) =>
-        let spec := match Spec.workbookDue lowerAscii wb with | .ok d => d | .error _ => []
+        let spec := match Spec.workbookDue levenshtein lowerAscii wb with | .ok d => d | .error _ => []
         pure (Json.mkObj [("outcome", "ok"), ("model", wsToJson ws), ("spec", wsToJson spec),
           ("or_other", Json.bool res.orOther),
           ("kept", Json.arr (res.kept.map fun (n, t) => Json.arr #[n, jstr t]).toArray)])
